@@ -477,18 +477,25 @@ func (x *exec) havocLoop(st *State, b *ssa.BasicBlock, li *loopInfo, rec *record
 			cur = x.getHeap(st, k, rec.sorts[k])
 		}
 		precise := !rec.whole[k]
+		onlyFresh := !rec.whole[k] // every other write goes to an object allocated inside the loop
+		var pre []Term
 		if precise {
 			for _, o := range rec.keys[k] {
-				if !isPreLoopTerm(o, rec.startFresh) {
-					precise = false
-					break
+				if isPreLoopTerm(o, rec.startFresh) {
+					pre = append(pre, o)
+					continue
+				}
+				precise = false
+				if !rec.allocs[o.S] {
+					onlyFresh = false
 				}
 			}
 		}
-		if precise {
+		switch {
+		case precise:
 			nt := cur
 			done := map[string]bool{}
-			for _, o := range rec.keys[k] {
+			for _, o := range pre {
 				if done[o.S] {
 					continue
 				}
@@ -498,7 +505,22 @@ func (x *exec) havocLoop(st *State, b *ssa.BasicBlock, li *loopInfo, rec *record
 			named := x.ctx.fresh("lh."+k, cur.Sort)
 			st.assume(Eq(named, nt))
 			x.setHeap(st, k, named, nil)
-		} else {
+		case onlyFresh:
+			// objects that existed before the loop (other than the ones written by name) keep
+			// their value: the remaining writes went to objects allocated by the loop itself
+			named := x.ctx.fresh("lh."+k, cur.Sort)
+			q := Term{"o!qlh", SInt}
+			conds := []Term{Lt(Zero, q), Le(q, st.W)}
+			done := map[string]bool{}
+			for _, o := range pre {
+				if !done[o.S] {
+					done[o.S] = true
+					conds = append(conds, Neq(q, o))
+				}
+			}
+			st.assume(Forall([]Term{q}, Implies(And(conds...), Eq(Select(named, q), Select(cur, q)))))
+			x.setHeap(st, k, named, nil)
+		default:
 			x.setHeap(st, k, x.ctx.fresh("lh."+k, cur.Sort), nil)
 		}
 	}
@@ -804,7 +826,14 @@ func (x *exec) crashPoint(st *State, where string, pos token.Pos) {
 	nq := 0
 	se := &specEnv{x: x, pkg: x.specPkg(ct), vars: x.topVars, st: st, cur: st, old: x.entry, nq: &nq, what: "crash_inv of " + x.ctx.Key}
 	for _, c := range ct.CrashInv {
-		x.oblige(st, "crash_inv", c.Label, where, se.evalBool(c.Expr), pos)
+		g := se.evalBool(c.Expr)
+		// the same formula as at the previous crash point of this path: already decided there
+		// (the path condition only grew)
+		if st.lastCrash[c.Label] == g.S {
+			continue
+		}
+		st.lastCrash[c.Label] = g.S
+		x.oblige(st, "crash_inv", c.Label, where, g, pos)
 	}
 }
 
